@@ -81,15 +81,17 @@ def exEnv : Env :=
 
 example : massFast exEnv exRule = .ok 349 ∧ massFast exEnv exExplicit = .ok 349 := by decide +kernel
 
-/-- **same composition and delta mass.** `comp_mass` condenses first, so the condensed form gives the same result. -/
-theorem comp_condense (E : Env) (a c : Annotation) (h : condenseStatic a = .ok c) :
+/-- **same composition and delta mass.** `comp_mass` condenses first, so the condensed form gives the same result. Since repo
+commit fdf96ab `comp_mass` also resolves the modifications of a rule whose target is absent (the condensed form no longer
+has that rule), hence the hypothesis that those resolve (`absentRuleBad … = false`; part of "the modifications resolve"). -/
+theorem comp_condense (E : Env) (a c : Annotation) (h : condenseStatic a = .ok c) (hrule : absentRuleBad E a = false) :
     compMassOf E c = compMassOf E a := by
   unfold compMassOf
-  rw [condenseStatic_idem a c h, h]
+  rw [condenseStatic_idem a c h, h, hrule, absentRuleBad_static_none E c (condenseStatic_static a c h)]
 
 /-- **same mass whichever path `mass` takes** (fast path without labels, composition path with labels) -/
-theorem mass_condense_any (E : Env) (a c : Annotation) (h : condenseStatic a = .ok c) :
-    massOf E c = massOf E a := by
+theorem mass_condense_any (E : Env) (a c : Annotation) (h : condenseStatic a = .ok c)
+    (hrule : absentRuleBad E a = false) : massOf E c = massOf E a := by
   have hiso : c.isotope = a.isotope := by
     unfold condenseStatic at h
     cases hs : a.static with
@@ -105,7 +107,7 @@ theorem mass_condense_any (E : Env) (a c : Annotation) (h : condenseStatic a = .
     exact this
   have hlab : massLabel E c = massLabel E a := by
     unfold massLabel
-    rw [comp_condense E a c h]
+    rw [comp_condense E a c h hrule]
   unfold massOf
   rw [hiso, hfast, hlab]
 
@@ -131,7 +133,7 @@ modification composition. `labelShift em comp lm` = Σ over the entries (element
 count(element) · (m(label) − m(element)), each entry seeing the composition left by the previous ones. -/
 theorem label_shift (E : Env) (a c : Annotation) (L : List Mod) (lm : LabelMap)
     (h0 : a.isotope = none) (hc : condenseStatic a = .ok c) (hbad : (allMods c).any (isBad E) = false)
-    (hl : parseIsotopeMods E.knownLabel L = .ok lm) :
+    (hrule : absentRuleBad E a = false) (hl : parseIsotopeMods E.knownLabel L = .ok lm) :
     ∃ x y, massLabel E { a with isotope := some L } = .ok x ∧ massLabel E a = .ok y ∧
       x - y = labelShift E.em (sequenceComposition E c) lm +
         (if E.useIsotopeOnMods then labelShift E.em (modComposition E c) lm else 0) := by
@@ -149,21 +151,22 @@ theorem label_shift (E : Env) (a c : Annotation) (L : List Mod) (lm : LabelMap)
   have e2 : modComposition E { c with isotope := some L } = modComposition E c := rfl
   have e3 : deltaMass E { c with isotope := some L } = deltaMass E c := rfl
   have e4 : allMods { c with isotope := some L } = allMods c := rfl
+  have e5 : absentRuleBad E { a with isotope := some L } = false := hrule
   have hn1 := nodupKeys_sequenceComposition E c
   have hn2 := nodupKeys_modComposition E c
   cases hu : E.useIsotopeOnMods with
   | false =>
     refine ⟨chemMass E.em (relabel (sequenceComposition E c) lm) + chemMass E.em (modComposition E c) + deltaMass E c,
             chemMass E.em (sequenceComposition E c) + chemMass E.em (modComposition E c) + deltaMass E c, ?_, ?_, ?_⟩
-    · simp [massLabel, compMassOf, hcL, e4, hbad, hl, hu, e1, e2, e3, chemMass_dropZeros, chemMass_compAdd, chemMass]
-    · simp [massLabel, compMassOf, hc, hbad, hciso, hu, relabel, chemMass_dropZeros, chemMass_compAdd, chemMass]
+    · simp [massLabel, compMassOf, hcL, e4, e5, hbad, hl, hu, e1, e2, e3, chemMass_dropZeros, chemMass_compAdd, chemMass]
+    · simp [massLabel, compMassOf, hc, hbad, hrule, hciso, hu, relabel, chemMass_dropZeros, chemMass_compAdd, chemMass]
     · rw [chemMass_relabel E.em lm _ hn1]; simp
   | true =>
     refine ⟨chemMass E.em (relabel (sequenceComposition E c) lm) + chemMass E.em (relabel (modComposition E c) lm) +
               deltaMass E c,
             chemMass E.em (sequenceComposition E c) + chemMass E.em (modComposition E c) + deltaMass E c, ?_, ?_, ?_⟩
-    · simp [massLabel, compMassOf, hcL, e4, hbad, hl, hu, e1, e2, e3, chemMass_dropZeros, chemMass_compAdd, chemMass]
-    · simp [massLabel, compMassOf, hc, hbad, hciso, hu, relabel, chemMass_dropZeros, chemMass_compAdd, chemMass]
+    · simp [massLabel, compMassOf, hcL, e4, e5, hbad, hl, hu, e1, e2, e3, chemMass_dropZeros, chemMass_compAdd, chemMass]
+    · simp [massLabel, compMassOf, hc, hbad, hrule, hciso, hu, relabel, chemMass_dropZeros, chemMass_compAdd, chemMass]
     · rw [chemMass_relabel E.em lm _ hn1, chemMass_relabel E.em lm _ hn2]; simp only [if_true]; ring
 
 /-- one label `element ↦ label`: the shift is (#atoms of the element in residues, termini and charge carrier) ×
@@ -182,10 +185,10 @@ theorem label_shift_pair (em : List Char → Rat) (c : Comp) (e1 l1 e2 l2 : List
 termini and charge carrier alone — the same whatever modifications the peptide carries -/
 theorem label_spares_mods (E : Env) (a c : Annotation) (L : List Mod) (lm : LabelMap)
     (h0 : a.isotope = none) (hc : condenseStatic a = .ok c) (hbad : (allMods c).any (isBad E) = false)
-    (hl : parseIsotopeMods E.knownLabel L = .ok lm) (hu : E.useIsotopeOnMods = false) :
+    (hrule : absentRuleBad E a = false) (hl : parseIsotopeMods E.knownLabel L = .ok lm) (hu : E.useIsotopeOnMods = false) :
     ∃ x y, massLabel E { a with isotope := some L } = .ok x ∧ massLabel E a = .ok y ∧
       x - y = labelShift E.em (sequenceComposition E { seq := a.seq }) lm := by
-  obtain ⟨x, y, hx, hy, hxy⟩ := label_shift E a c L lm h0 hc hbad hl
+  obtain ⟨x, y, hx, hy, hxy⟩ := label_shift E a c L lm h0 hc hbad hrule hl
   refine ⟨x, y, hx, hy, ?_⟩
   have : sequenceComposition E c = sequenceComposition E { seq := a.seq } := by
     unfold sequenceComposition; rw [condenseStatic_seq a c hc]
@@ -194,10 +197,10 @@ theorem label_spares_mods (E : Env) (a c : Annotation) (L : List Mod) (lm : Labe
 /-- **with `use_isotope_on_mods` the label also reaches the atoms inside modifications** -/
 theorem label_reaches_mods (E : Env) (a c : Annotation) (L : List Mod) (lm : LabelMap)
     (h0 : a.isotope = none) (hc : condenseStatic a = .ok c) (hbad : (allMods c).any (isBad E) = false)
-    (hl : parseIsotopeMods E.knownLabel L = .ok lm) (hu : E.useIsotopeOnMods = true) :
+    (hrule : absentRuleBad E a = false) (hl : parseIsotopeMods E.knownLabel L = .ok lm) (hu : E.useIsotopeOnMods = true) :
     ∃ x y, massLabel E { a with isotope := some L } = .ok x ∧ massLabel E a = .ok y ∧
       x - y = labelShift E.em (sequenceComposition E { seq := a.seq }) lm + labelShift E.em (modComposition E c) lm := by
-  obtain ⟨x, y, hx, hy, hxy⟩ := label_shift E a c L lm h0 hc hbad hl
+  obtain ⟨x, y, hx, hy, hxy⟩ := label_shift E a c L lm h0 hc hbad hrule hl
   refine ⟨x, y, hx, hy, ?_⟩
   have : sequenceComposition E c = sequenceComposition E { seq := a.seq } := by
     unfold sequenceComposition; rw [condenseStatic_seq a c hc]
@@ -207,11 +210,11 @@ theorem label_reaches_mods (E : Env) (a c : Annotation) (L : List Mod) (lm : Lab
 and — when modifications are reached — in the modifications) -/
 theorem label_absent_element (E : Env) (a c : Annotation) (L : List Mod) (lm : LabelMap)
     (h0 : a.isotope = none) (hc : condenseStatic a = .ok c) (hbad : (allMods c).any (isBad E) = false)
-    (hl : parseIsotopeMods E.knownLabel L = .ok lm)
+    (hrule : absentRuleBad E a = false) (hl : parseIsotopeMods E.knownLabel L = .ok lm)
     (habs : ∀ p ∈ lm, compGet (sequenceComposition E c) p.1 = 0)
     (hmods : E.useIsotopeOnMods = true → ∀ p ∈ lm, compGet (modComposition E c) p.1 = 0) :
     massLabel E { a with isotope := some L } = massLabel E a := by
-  obtain ⟨x, y, hx, hy, hxy⟩ := label_shift E a c L lm h0 hc hbad hl
+  obtain ⟨x, y, hx, hy, hxy⟩ := label_shift E a c L lm h0 hc hbad hrule hl
   rw [labelShift_zero E.em lm _ habs] at hxy
   have : x = y := by
     cases hu : E.useIsotopeOnMods with
